@@ -322,13 +322,13 @@ func (rep *Report) finish(evFile string) int {
 			rec["replay_inputs"] = p.args
 			rec["replay_verdict"] = v
 			reproduced := false
-			if strings.HasPrefix(vc.Kind, "ensures") && v == "fail" {
+			if (strings.HasPrefix(vc.Kind, "ensures") || strings.HasPrefix(vc.Kind, "expect")) && v == "fail" {
 				reproduced = true
 			}
 			if (strings.HasPrefix(vc.Kind, "safe.") || strings.HasPrefix(vc.Kind, "call@")) && v == "panic" {
 				reproduced = true
 			}
-			if strings.HasPrefix(vc.Kind, "ensures") && v == "panic" {
+			if (strings.HasPrefix(vc.Kind, "ensures") || strings.HasPrefix(vc.Kind, "expect")) && v == "panic" {
 				reproduced = true
 			}
 			if reproduced {
